@@ -246,7 +246,7 @@ class Gen:
             elif k == 1:
                 e = N("FIELD_ACCESS", e, T("."), self.name_ref(r.random() < 0.2))
             else:
-                e = N("TUPLE_INDEX", e, T("."), N("LITERAL", T(r.choice(["0", "1"]))))
+                e = N("TUPLE_INDEX", e, T("."), N("LITERAL", T(r.choice(["0", "1", "2", "12"]))))
         return e
 
     def arg_list(self, d):
@@ -510,18 +510,32 @@ def needs_space(a, b):
     return False
 
 
-def render(n, rng=None, dense=False):
-    """text of the program; with rng: random legal trivia between tokens; dense: minimal spacing"""
+def needs_space_at(toks, i):
+    """like needs_space(toks[i-1], toks[i]), but a tuple index may be written the usual way: `pair.0`, `pair.0.name`,
+    `pair.0 .1` (the blank is needed only where digits would meet a dot on both sides and re-lex as a float)"""
+    a, b = toks[i - 1], toks[i]
+    if a == "." and b.isdigit():
+        return i >= 2 and toks[i - 2][-1:].isdigit()
+    if a.isdigit() and b == "." and i >= 2 and toks[i - 2] == ".":
+        return i + 1 < len(toks) and toks[i + 1][:1].isdigit()
+    return needs_space(a, b)
+
+
+def render(n, rng=None, dense=False, tight=0.25):
+    """text of the program; with rng: random legal trivia between tokens, which with probability `tight` is the
+    minimal legal one (nothing where two tokens may touch); dense: minimal spacing everywhere"""
     toks = tokens(n)
     out = []
     for i, t in enumerate(toks):
         if i > 0:
             if dense:
-                out.append(" " if needs_space(toks[i - 1], t) else "")
+                out.append(" " if needs_space_at(toks, i) else "")
             elif rng is None:
                 out.append(" ")
             else:
                 s = rng.choice(TRIVIA)
+                if rng.random() < tight and not needs_space_at(toks, i):
+                    s = ""
                 out.append(s)
         out.append(t)
     if rng is not None and rng.random() < 0.5:
